@@ -201,6 +201,8 @@ class C17(Prop):
                     c["zscale"] = 16
             elif ep in ("ident", "iso", "isomodel"):
                 c.update(f=rng.choice(["mean", "median", "expectile", "quantile"]), level=rng.choice([0.5, 0.25, 0.75]))
+                if ep in ("iso", "isomodel"):
+                    c["inc"] = rng.random() < 0.5  # both directions (ties in X are frequent: few distinct values)
                 if ep in ("iso", "isomodel") and c["f"] in ("quantile", "median"):
                     c["w"] = None
                 if ep == "isomodel":
@@ -271,6 +273,7 @@ class C17(Prop):
                 wa = None if w is None else np.asarray(w, dtype=float)
                 extra["avg"] = float(np.average(per, weights=wa))
                 extra["scaled"] = float(sf(y, z, None if wa is None else 8.0 * wa))
+                extra["scaled_tiny"] = float(sf(y, z, None if wa is None else 2.0**-40 * wa))
             return {"vals": [float(v) for v in per] + [m], **extra}
         if ep == "ident":
             from model_diagnostics.calibration import identification_function
@@ -279,17 +282,22 @@ class C17(Prop):
         if ep == "iso":
             from model_diagnostics._utils.isotonic import isotonic_regression
 
-            return {"vals": flat(isotonic_regression(y, w, functional=case["f"], level=case["level"]))}
+            return {"vals": flat(isotonic_regression(y, w, increasing=case.get("inc", True), functional=case["f"], level=case["level"]))}
         if ep == "isomodel":
             from model_diagnostics._utils.isotonic import IsotonicRegression
 
-            m = IsotonicRegression(functional=case["f"], level=case["level"]).fit(z, y, sample_weight=w)
+            m = IsotonicRegression(increasing=case.get("inc", True), functional=case["f"], level=case["level"]).fit(z, y, sample_weight=w)
             return {"vals": flat(m.predict(np.array(case["query"], dtype=float))) + flat(m.predict(z))}
         if ep == "decompose":
             from model_diagnostics.scoring import decompose
 
             sf = mk_sf(case)
-            return {"vals": flat(decompose(y, z, w, scoring_function=sf))}
+            extra = {}
+            if container == "np_float64" and w is not None and not case.get("rows2d"):
+                # rescaling all weights (also to a tiny common magnitude) must not change any component
+                wa = np.asarray(w, dtype=float)
+                extra["rescaled"] = {str(f_): flat(decompose(y, z, f_ * wa, scoring_function=sf)) for f_ in (8.0, 2.0**-40)}
+            return {"vals": flat(decompose(y, z, w, scoring_function=sf)), **extra}
         feat = cv("feature", case["feature"], container)
         if ep == "bias":
             from model_diagnostics.calibration import compute_bias
@@ -402,9 +410,13 @@ class C17(Prop):
                 return f"{case['stream']}: {case['container']} gives {b!r} where float64 arrays give {a!r}"
         if "avg" in base:
             m = base["vals"][-1]
-            for name in ("avg", "scaled"):
+            for name in ("avg", "scaled", "scaled_tiny"):
                 if not (abs(m - base[name]) <= 1e-12 * max(1.0, abs(m)) or m == base[name]):
-                    return f"aggregated score {m!r} differs from {'the weighted average of score_per_obs' if name == 'avg' else 'the score with weights * 8'} {base[name]!r}"
+                    return f"aggregated score {m!r} differs from {'the weighted average of score_per_obs' if name == 'avg' else 'the score with all weights rescaled (' + name + ')'} {base[name]!r}"
+        for f_, vals in (base.get("rescaled") or {}).items():
+            for a, b in zip(base["vals"], vals):
+                if isinstance(a, float) and isinstance(b, float) and not (abs(a - b) <= 1e-9 * max(1.0, abs(a), abs(b)) or (math.isnan(a) and math.isnan(b))):
+                    return f"decompose: multiplying all weights by {f_} changes a component from {a!r} to {b!r}"
         return None
 
     def nontrivial(self, case, io):
